@@ -250,15 +250,24 @@ static bool pred_eval(const Pred &p, int ch) {
 static int pred_cb(int ch, void *par) { return pred_eval(*(const Pred *)par, ch) ? 1 : 0; }
 
 // ---- operations on the iovec form
-static void op_memchr(Case &k, int tok, bool rev) {
+// the token is an int like the one of memchr(3): the reference is libc memchr/memrchr on the contiguous string with the same argument
+static void memchr_once(Case &k, int tok, bool rev) {
   IovList f(k.fmsg), o(k.omsg);
-  unsigned char b = (unsigned char)tok;
   char what[48];
-  snprintf(what, sizeof what, "%s(0x%02x)", rev ? "memrchr" : "memchr", b);
+  snprintf(what, sizeof what, "%s(%d = 0x%02x)", rev ? "memrchr" : "memchr", tok, (unsigned)tok & 0xff);
   ssize_t rf = rev ? mpt_memrchr(f.v, f.n, tok) : mpt_memchr(f.v, f.n, tok);
   ssize_t ro = rev ? mpt_memrchr(o.v, o.n, tok) : mpt_memchr(o.v, o.n, tok);
-  auto p = [b](unsigned char x) { return x == b; };
-  check_search(k, what, rf, ro, rev ? ref_last(k.text, p) : ref_first(k.text, p), true);
+  const char *t = k.text.data();
+  const void *r = k.text.empty() ? 0 : rev ? memrchr(t, tok, k.text.size()) : memchr(t, tok, k.text.size());
+  check_search(k, what, rf, ro, r ? (const char *)r - t : -1, true);
+}
+static void op_memchr(Case &k, int tok, bool rev) {
+  unsigned char b = (unsigned char)tok;
+  memchr_once(k, b, rev);
+  if (b >= 0x80) {  // the same byte as a caller holding it in a plain (signed) char passes it
+    memchr_once(k, (int)(signed char)b, rev);
+    k.c.label(rev ? "memrchr:sign-extended-token" : "memchr:sign-extended-token");
+  }
   k.c.label(rev ? "op:memrchr" : "op:memchr");
 }
 static void op_memstr(Case &k, const Bytes &set, bool rev) {
@@ -596,6 +605,61 @@ static void op_array_message(Case &k, int sep) {
   if (k.nonempty >= 2 && ro > 0) k.nt = true;
 }
 
+// ---- mpt_array_message where the message lies inside the buffer the target array owns (re-splitting a stored command in
+//      place): compared with the same bytes copied elsewhere and split into a fresh target
+static void op_array_message_alias(Case &k, bool from_args, int sep1, int sep2, const std::vector<std::pair<size_t, size_t>> &ranges) {
+  Ctx &c = k.c;
+  CObj<array> store, ref;
+  struct Fini { array *a; ~Fini() { mpt_array_clone(a, 0); } } f1{store}, f2{ref};
+  // step 1: the stored bytes: arguments of the text (result of an earlier mpt_array_message) or the raw text.
+  //         The reference target is prepared the same way (what a target of another content type does with the new
+  //         arguments is not the question here), it only does not own the bytes of the message.
+  for (array *a : {(array *)store, (array *)ref}) {
+    if (from_args) {
+      int n1 = mpt_array_message(a, &k.omsg, sep1);
+      CK(c, n1 >= 0, "harness", "first mpt_array_message returned %d", n1);
+    } else if (!k.text.empty()) {
+      CK(c, mpt_array_append(a, k.text.size(), k.text.data()) != 0, "harness", "mpt_array_append failed");
+    }
+  }
+  CK(c, array_bytes(store) == array_bytes(ref), "harness", "the two targets differ before the call");
+  CBuf *b = cbuf(store);
+  size_t slen = b ? b->used : 0;
+  const uint8_t *sd = b ? b->data() : 0;
+  // step 2: fragments inside the stored bytes
+  std::vector<struct iovec> v;
+  Bytes flat;
+  std::string rs;
+  for (auto r : ranges) {
+    size_t off = slen ? r.first % (slen + 1) : 0, len = slen - off ? r.second % (slen - off + 1) : 0;
+    struct iovec e;
+    e.iov_base = (void *)(sd + off); e.iov_len = len;
+    v.push_back(e);
+    if (len) flat.append((const char *)sd + off, len);
+    char t[32]; snprintf(t, sizeof t, "%s[%zu,+%zu)", rs.empty() ? "" : " ", off, len); rs += t;
+  }
+  if (!b) return;  // nothing stored (empty text): no buffer to point into
+  struct iovec *cont = (struct iovec *)malloc((v.size() - 1) * sizeof(*cont));
+  for (size_t i = 1; i < v.size(); i++) cont[i - 1] = v[i];
+  struct FreeCont { void *p; ~FreeCont() { free(p); } } fc{cont};
+  message m;
+  m.base = v[0].iov_base; m.used = v[0].iov_len; m.clen = v.size() - 1; m.cont = m.clen ? cont : 0;
+  Frags one;
+  one.build(flat, {flat.size()});
+  message om = one.msg();
+  int nr = mpt_array_message(ref, &om, sep2);
+  Bytes gr = array_bytes(ref);
+  int ns = mpt_array_message(store, &m, sep2);  // the arguments replace the bytes they are read from
+  Bytes gs = array_bytes(store);
+  c.logf("array_message(sep 0x%02x) of fragments %s inside the target's own %zu stored bytes (%s): %d args %s; same bytes from a copy into an equal target: %d args %s", (unsigned)sep2 & 0xff, rs.c_str(), slen,
+         from_args ? "arguments of the text" : "raw text", ns, show(gs).c_str(), nr, show(gr).c_str());
+  CK(c, ns == nr, "array-message-differs", "mpt_array_message(0x%02x) of fragments inside the target's own buffer: %d arguments, %d from a copy of the same bytes", (unsigned)sep2 & 0xff, ns, nr);
+  CK(c, gs == gr, "array-message-differs", "mpt_array_message(0x%02x) of fragments inside the target's own buffer: arguments %s, %s from a copy of the same bytes", (unsigned)sep2 & 0xff, show(gs).c_str(), show(gr).c_str());
+  c.label("op:array_message-alias");
+  if (nr > 0) c.label("array_message-alias:arguments");
+  if (v.size() >= 2 && nr > 0) k.nt = true;
+}
+
 // ---- sources of the fragmented form
 static void source_heap(Case &k, const std::vector<size_t> &lens) {
   k.heap.build(k.text, lens);
@@ -756,7 +820,7 @@ static Bytes draw_tokset(Ctx &c, const char *typical) {
   return s;
 }
 
-enum { OpRead, OpLength, OpMemchr, OpMemstr, OpMemfcn, OpMemtok, OpMemcpy, OpAppend, OpArgv, OpArrayMessage, OpAppendBounded, OpGet, OpAppendState, NOp };
+enum { OpRead, OpLength, OpMemchr, OpMemstr, OpMemfcn, OpMemtok, OpMemcpy, OpAppend, OpArgv, OpArrayMessage, OpAppendBounded, OpGet, OpAppendState, OpArrayMessageAlias, NOp };
 
 static void one_op(Case &k, int op) {
   Ctx &c = k.c;
@@ -837,6 +901,15 @@ static void one_op(Case &k, int op) {
       op_append_state(k, state, prefix, type, elements);
       break;
     }
+    case OpArrayMessageAlias: {
+      bool from_args = c.weighted({1, 2}) != 0;
+      int sep1 = draw_sep(c, k.text), sep2 = draw_sep(c, k.text);
+      size_t nr = c.range(1, 3);
+      std::vector<std::pair<size_t, size_t>> ranges;
+      for (size_t i = 0; i < nr; i++) { size_t off = c.range(0, 320), len = c.range(0, 320); ranges.push_back({off, len}); }
+      op_array_message_alias(k, from_args, sep1, sep2, ranges);
+      break;
+    }
   }
 }
 
@@ -860,7 +933,7 @@ static void run(Ctx &c) {
   CK(c, flatten(k.fmsg) == k.text && flatten(k.omsg) == k.text, "harness", "fragment construction broken");
   unsigned ops = 0;
   do {
-    one_op(k, (int)c.weighted({4, 1, 2, 2, 2, 4, 3, 2, 5, 3, 3, 3, 3}));  // new operations are added at the end: existing case bytes keep their meaning
+    one_op(k, (int)c.weighted({4, 1, 2, 2, 2, 4, 3, 2, 5, 3, 3, 3, 3, 2}));  // new operations are added at the end: existing case bytes keep their meaning
   } while (++ops < 8 && c.more());
   if (k.nt) c.nontrivial();
 }
@@ -915,6 +988,11 @@ static void run_enum(Ctx &c) {
   op_memtok(k, 0, "a", 0);
   op_memtok(k, "\n", "a", "\"");
   for (int sep : {(int)' ', (int)'a', 0, (int)'\n'}) { op_argv(k, sep); op_array_message(k, sep); }
+  // re-split stored arguments in place: first half + second half of what the space split stored, and the raw text cut in two
+  if (n) {
+    op_array_message_alias(k, true, ' ', '\n', {{0, (n + 1) / 2}, {(n + 1) / 2, 320}});
+    op_array_message_alias(k, false, 0, ' ', {{0, n / 2}, {n / 2, 320}});
+  }
   op_append(k, Bytes());
   op_append(k, "pp");
   op_append_state(k, TgtShared, "pp", 0, Bytes());
@@ -949,7 +1027,7 @@ static Target t = {
     "C17",
     "random: text <= 300 bytes (words/white space/quotes/separators/comments/NULs | 1-4 symbol alphabet | arbitrary) x composition into <= 6 fragments with empty fragments, each fragment an "
     "exact-size heap block, or the parts mpt_message_get() yields for a range of a (wrapped) queue; 1-8 operations out of read schedules (lengths at fragment borders +-1), length, "
-    "memchr/memrchr, memstr/memrstr, memfcn/memrfcn, memtok(tok,com,esc), memcpy into a <= 4 fragment target, mpt_message_append (growing array | two identical targets that are empty / raw / raw and shared with a second handle / typed elements | array on a fixed-capacity buffer that refuses to grow, capacity at fragment borders +-1), the argv/read/skip loop, mpt_array_message, mpt_message_get over ranges of a second (wrapped) queue with and without the spare iovec into the message the caller holds (refusal must leave it unchanged); every result compared "
+    "memchr/memrchr, memstr/memrstr, memfcn/memrfcn, memtok(tok,com,esc), memcpy into a <= 4 fragment target, mpt_message_append (growing array | two identical targets that are empty / raw / raw and shared with a second handle / typed elements | array on a fixed-capacity buffer that refuses to grow, capacity at fragment borders +-1), the argv/read/skip loop, mpt_array_message (also with the message fragments lying inside the target array's own buffer), mpt_message_get over ranges of a second (wrapped) queue with and without the spare iovec into the message the caller holds (refusal must leave it unchanged); every result compared "
     "with the same call on the contiguous copy and with a flat reference where one exists. exhaustive: all strings of length <= 5 (thorough: 6) over {a, space, quote, newline} x all compositions "
     "into <= 3 fragments x a fixed battery of all operations. non-trivial: >= 2 non-empty fragments and the answer position / consumed extent lies behind the first non-empty fragment "
     "(enumerated cases all count); distinct by hash of the draw sequence.",
